@@ -9,6 +9,7 @@ import (
 	"sort"
 	"strconv"
 	"strings"
+	"sync"
 	"time"
 	"unicode/utf8"
 
@@ -19,6 +20,28 @@ import (
 // These may persist between runs because a regular expression object
 // is essentially constant.
 var regCache map[string]*regexp.Regexp
+
+// regCacheMutex guards regCache: evaluators running in different
+// goroutines share this one cache.
+var regCacheMutex sync.Mutex
+
+// cachedRegexp returns the compiled form of the given regular
+// expression, compiling it and remembering it the first time.
+func cachedRegexp(reg string) (*regexp.Regexp, error) {
+	regCacheMutex.Lock()
+	defer regCacheMutex.Unlock()
+
+	r, ok := regCache[reg]
+	if !ok {
+		var err error
+		r, err = regexp.Compile(reg)
+		if err != nil {
+			return nil, err
+		}
+		regCache[reg] = r
+	}
+	return r, nil
+}
 
 // init ensures that our regexp cache is populated
 func init() {
@@ -253,21 +276,12 @@ func fnMatch(args []object.Object) object.Object {
 	reg := args[1].Inspect()
 
 	// Look for the compiled regular-expression object in our cache.
-	r, ok := regCache[reg]
-	if !ok {
+	r, err := cachedRegexp(reg)
 
-		// OK it wasn't found, so compile it.
-		var err error
-		r, err = regexp.Compile(reg)
-
-		// Ensure it compiled
-		if err != nil {
-			fmt.Printf("Invalid regular expression %s %s", reg, err.Error())
-			return &object.Boolean{Value: false}
-		}
-
-		// store in the cache for next time
-		regCache[reg] = r
+	// Ensure it compiled
+	if err != nil {
+		fmt.Printf("Invalid regular expression %s %s", reg, err.Error())
+		return &object.Boolean{Value: false}
 	}
 
 	// Split the input by newline.
@@ -514,21 +528,12 @@ func fnReplace(args []object.Object) object.Object {
 
 
 	// Look for the compiled regular-expression object in our cache.
-	r, ok := regCache[reg]
-	if !ok {
+	r, err := cachedRegexp(reg)
 
-		// OK it wasn't found, so compile it.
-		var err error
-		r, err = regexp.Compile(reg)
-
-		// Ensure it compiled
-		if err != nil {
-			fmt.Printf("Invalid regular expression %s %s", reg, err.Error())
-			return &object.Boolean{Value: false}
-		}
-
-		// store in the cache for next time
-		regCache[reg] = r
+	// Ensure it compiled
+	if err != nil {
+		fmt.Printf("Invalid regular expression %s %s", reg, err.Error())
+		return &object.Boolean{Value: false}
 	}
 
 	out := r.ReplaceAll([]byte(str), []byte(replace))
